@@ -6,6 +6,7 @@ import (
 	"io"
 	"os"
 	"path/filepath"
+	"strings"
 
 	"verif/dec16"
 	"verif/dump"
@@ -55,6 +56,13 @@ func decodeAndCompare(b []byte, exp *ref.Content, mode uint32, merged bool) (kin
 		if exp.Vecs[name] == nil {
 			return "vector-table", fmt.Sprintf("vector section for field %q, which has no vectors", name)
 		}
+	}
+	// everything else is fine: report a recognised deviation from the documented layout
+	for _, d := range res.Deviations {
+		if strings.Contains(d, dec16.ErrNoEntryCount.Error()) {
+			return "thesaurus-without-entries-omits-entry-count", "not decodable from the documented layout alone: " + d
+		}
+		return "undocumented-layout", d
 	}
 	return "", ""
 }
